@@ -82,11 +82,22 @@ def ensure_build(targets=None, timeout=3000):
         cmd = ["timeout", str(timeout), "make", "-j16"]
         if targets:
             cmd += ["theories/" + t[:-2] + ".vo" for t in targets]
-        r = subprocess.run(cmd, cwd=COQ, stdout=subprocess.PIPE, stderr=subprocess.STDOUT, text=True)
+        r = subprocess.run(cmd, cwd=COQ, stdout=subprocess.PIPE, stderr=subprocess.STDOUT, text=True, preexec_fn=_unlimit)
         return r.returncode == 0, r.stdout[-4000:]
     finally:
         fcntl.flock(lock, fcntl.LOCK_UN)
         lock.close()
+
+
+def _unlimit():
+    """undo the address-space cap of the harness process for a child (coqc / make / coqchk)"""
+    try:
+        import resource
+        soft, hard = resource.getrlimit(resource.RLIMIT_AS)
+        old = int(os.environ.get("N0V_OLD_AS_SOFT", "-1"))
+        resource.setrlimit(resource.RLIMIT_AS, (hard if old < 0 else old, hard))
+    except Exception:  # noqa
+        pass
 
 
 def coqc(path, extra_q=(), timeout=600, cwd=None):
@@ -94,7 +105,7 @@ def coqc(path, extra_q=(), timeout=600, cwd=None):
     for d, name in extra_q:
         cmd += ["-Q", d, name]
     cmd.append(path)
-    r = subprocess.run(cmd, cwd=cwd or COQ, stdout=subprocess.PIPE, stderr=subprocess.PIPE, text=True)
+    r = subprocess.run(cmd, cwd=cwd or COQ, stdout=subprocess.PIPE, stderr=subprocess.PIPE, text=True, preexec_fn=_unlimit)
     return r.returncode, r.stdout, r.stderr
 
 
@@ -208,7 +219,7 @@ def coqchk(relpaths, timeout=2400):
     unsafe fixpoint, no assumed positivity."""
     mods = ["N0." + r[:-2].replace("/", ".") for r in relpaths if r]
     r = subprocess.run(["timeout", str(timeout), "coqchk", "-silent", "-o", "-Q", THEORIES, "N0"] + mods,
-                       cwd=COQ, stdout=subprocess.PIPE, stderr=subprocess.STDOUT, text=True)
+                       cwd=COQ, stdout=subprocess.PIPE, stderr=subprocess.STDOUT, text=True, preexec_fn=_unlimit)
     out = r.stdout
     i = out.find("CONTEXT SUMMARY")
     summary = out[i:] if i >= 0 else out[-1500:]
